@@ -51,7 +51,8 @@ def _spell(d, how):
 def build_worlds(case):
     """-> (split world, reference world)"""
     main = case['tree']
-    table = ['  .2byte ' + g for g in case.get('table', [])] + [gen.SENTINEL]
+    table = ['  .2byte ' + g for g in case.get('table', [])] + ['  .byte ' + k for k in case.get('ctable', [])] + [
+        gen.SENTINEL]
     files = {}
     for rel, lines in progtree.split_files(main).items():
         text = list(lines)
@@ -291,6 +292,22 @@ def negatives(case, rnd, tg):
         c['inc_dirs'] = sorted(set(progtree.include_dirs(m)))
         c['kind'] = 'neg-double-inclusion-after-nested' + ('-via-sibling' if via_sibling else '')
         out.append(c)
+    # a cycle that re-enters a file protected by an include guard: main -> gb (guarded) -> gc -> gb.  The second
+    # inclusion would be empty, but a file included more than once must be rejected all the same
+    c = clone()
+    m = c['tree']
+    gb = {'name': 'gb.asm', 'dir': '', 'idx': 94, 'items': []}
+    gc = {'name': 'gc.asm', 'dir': rnd.choice(['', 'inc']), 'idx': 95,
+          'items': [{'t': 'line', 's': '  .byte $31', 'r': '  .byte $31'},
+                    {'t': 'inc', 'file': {'name': 'gb.asm', 'dir': '', 'idx': 96, 'items': [], 'dup': True}}]}
+    gb['items'] = [{'t': 'line', 's': '#ifndef GB_H', 'r': '#ifndef GB_H'},
+                   {'t': 'line', 's': '#define GB_H 1', 'r': '#define GB_H 1'},
+                   {'t': 'line', 's': '  .byte $32', 'r': '  .byte $32'}, {'t': 'inc', 'file': gc},
+                   {'t': 'line', 's': '#endif', 'r': '#endif'}]
+    m['items'].insert(rnd.randrange(2, len(m['items']) + 1), {'t': 'inc', 'file': gb})
+    c['inc_dirs'] = sorted(set(progtree.include_dirs(m)))
+    c['kind'] = 'neg-cycle-through-include-guard'
+    out.append(c)
     # missing file
     c = clone()
     c['tree']['items'].insert(rnd.randrange(0, len(c['tree']['items']) + 1),
@@ -343,7 +360,7 @@ def explore(subseed, cfg):
     fmt = rnd.choice(['json', 'json', 'yaml'])
     tg = progtree.TreeGen(rnd, info, n_files=rnd.choice([1, 2, 2, 3, 3, 4]))
     main = tg.generate()
-    case = {'isa_text': gen.isa_text(isa, fmt), 'isa_name': 'isa.' + fmt, 'tree': main, 'table': list(tg.all_globals),
+    case = {'isa_text': gen.isa_text(isa, fmt), 'isa_name': 'isa.' + fmt, 'tree': main, 'table': list(tg.all_globals), 'ctable': list(tg.cross_consts),
             'kind': 'positive', 'sched': {'set_seed': None}}
     ndirs = len(progtree.include_dirs(main))
     nfiles = len(progtree.all_files(main))
